@@ -53,6 +53,8 @@ def make_space(s):
             members.append(("vec", spaces.Box(-1.0, 1.0, (s["vec"],), np.float32)))
         if s.get("img"):
             members.append(("img", spaces.Box(0.0, 1.0, tuple(s["img"]), np.float32)))
+        if s.get("img2"):  # a second image member: two EvolvableCNN encoders built from the same cnn_config
+            members.append(("img2", spaces.Box(0.0, 1.0, tuple(s["img2"]), np.float32)))
         if s.get("seq"):
             members.append(("seq", spaces.Box(-1.0, 1.0, tuple(s["seq"]), np.float32)))
         if s.get("disc"):
@@ -752,6 +754,8 @@ def _multi_space(draw):
         s["vec"] = 3  # the module concatenates vector inputs: at least one vector member
     if not s["img"] and not s["seq"]:
         s["img"] = [2, 8, 8]
+    if s["img"] and draw(st.integers(0, 2)) == 0:
+        s["img2"] = draw(st.sampled_from([[1, 8, 8], [2, 8, 8], [3, 12, 12]]))
     return s
 
 
